@@ -359,7 +359,12 @@ class Plane:
             plane.amplitude = plane.amplitude/scale
 
         if plane.opd.ndim > 1:
-            plane.opd = lentil.rescale(plane.opd, scale=scale, shape=None, mask=None,
+            # (the whole OPD map is interpolated: with mask=None rescale would
+            # take every sample that is exactly 0.0 - a tilt through the array
+            # centre, a node line - for a hole in the aperture and damp its
+            # neighbours)
+            plane.opd = lentil.rescale(plane.opd, scale=scale, shape=None,
+                                       mask=np.ones(plane.opd.shape),
                                        order=3, mode='nearest', unitary=False)
 
         if plane._mask.ndim == 2:
